@@ -174,6 +174,8 @@ SPECS["C16"] = dict(
     ],
 )
 
+FX_OVERLAY_EARLY = ["verifx/fx", "verifx/vio"]
+
 SPECS["C15"] = dict(
     level="exploration",
     technique="property-based testing (rapid): generated accept/close histories on each load balancer over bare event loops, checked against the policy's definition; engine-level sessions check that the assigned loop is the loop that runs the callbacks",
@@ -196,9 +198,11 @@ SPECS["C17"] = dict(
          "or an invalid one (IP of 0..20 bytes except 4/16, unsupported Unix network, unknown net.Addr type) which must yield nil without panic; or a Unix path; "
          "non-trivial = IPv6 address with non-empty zone, or an invalid input; distinct = distinct input",
     assumptions=["zone names that are neither an existing interface nor a decimal number have no kernel representation and are not generated", "numeric zones are generated in canonical decimal form below 0xFFFFFF (the parser's cap)"],
-    overlay=["verifx/c17"],
+    overlay=["verifx/c17"] + FX_OVERLAY_EARLY,
     jobs=[
         dict(name="c17conv", pkg="./verifx/c17", tests=[
+            dict(id="zones", run="^TestC17ZoneRecycling$", quick=dict(shards=1, checks=60, timeout=300), thorough=dict(shards=2, checks=2000, timeout=1200)),
+            dict(id="sessions", run="^TestC17Sessions$", quick=dict(shards=4, checks=40, timeout=600, shrinktime=30), thorough=dict(shards=6, checks=1500, timeout=3400, shrinktime=300)),
             dict(id="conversion", run="^TestC17Conversion$", quick=dict(shards=4, checks=15000, timeout=300), thorough=dict(shards=8, checks=250000, timeout=1500)),
             dict(id="invalid", run="^TestC17Invalid$", quick=dict(shards=2, checks=15000, timeout=300), thorough=dict(shards=4, checks=150000, timeout=1500)),
         ]),
